@@ -22,7 +22,7 @@ from wbgen import a1
 NAME = 'clocksim'
 # probes that count as injected disturbances (reported under faults_fired in the evidence)
 FAULT_PROBES = ('env_calendar_firstweekday_changed', 'env_decimal_context_changed', 'env_warnings_filter_changed', 'clock_stepped_backward', 'tz_changed', 'dst_transition_crossed', 'midnight_crossed_inside_one_evaluation', 'midnight_crossed_between_two_queries', 'month_length_class_changed', 'override_between_two_instants')
-NEEDS_REF = False
+NEEDS_REF = True       # invariance mode asks a foreign process (other hash seed) for the same cells once per run
 WB_PATH = '/simfs/clock.xlsx'
 EPOCH = datetime.datetime(1970, 1, 1)
 DAY = 86400
@@ -155,7 +155,7 @@ def _anchor_instants(r, n):
 # ----------------------------------------------------------------------------------------------
 # invariance mode: the criteria matrix
 
-SAFE_TEXT = ['x', 'ab', 'abc', 'Zed', 'k9', 'a', 'zz', 'hello', 'TRUE', 'é✓', 'Ab', 'AB']
+SAFE_TEXT = ['x', 'ab', 'abc', 'Zed', 'k9', 'a', 'zz', 'hello', 'TRUE', 'é✓', 'Ab', 'AB', 'a.b', 'a.bc', 'k(9)', 'x+y', '[a]b', 'a|b', 'c$']
 DATELIKE_TEXT = ['5', '05', '29', '30', '31', '1-2', '3/4', '10:30', 'may', 'jan 5', '2024-01-31', '12', '31.0', 'mon']
 
 
@@ -220,7 +220,7 @@ def _matrix_workbook(r, datelike, pad=0):
         return None  # pattern (only allowed as the sole pair)
 
     def pattern():
-        return '"%s"' % r.choice(['a*', '?b', '*b*', 'z?', '~*', 'A*', '???'])
+        return '"%s"' % r.choice(['a*', '?b', '*b*', 'z?', '~*', 'A*', '???', 'a.b*', 'a.?*', 'k(9)*', '*+y', '[a]*', 'a|?', '?$', '*.*'])
 
     formulas = []
     n = r.randint(6, 24)
@@ -505,6 +505,25 @@ def _exec_invariance(plan):
             ent['pristine'] = pr
             probe('compared_with_pristine_executor', len(pr))
         log.append(ent)
+    # oracle (iii): the same cells in a pristine FOREIGN process - other string hash seed, no history, first instant
+    ref = CTX.get('ref') if CTX else None
+    if ref is not None and log:
+        t0_ = plan['timeline'][0]
+        try:
+            rr_ = ref({'kind': 'c12', 'spec': spec, 'ns': t0_['ns'], 'tz': t0_['tz']})
+        except Exception as e:
+            raise core.HarnessError('reference: %r' % (e,))
+        if rr_.get('cells') is not None:
+            n_cmp = 0
+            for k, cc, rr in cells:
+                if _reads_today(spec, k) or k not in rr_['cells']:
+                    continue
+                n_cmp += 1
+                if rr_['cells'][k] != log[0]['row'][k][0]:
+                    mism.append({'key': 'process-dependent-result', 'cell': k, 'formula': spec['sheets'][0]['cells'][k], 'instants': [0, 0],
+                                 'dates': [log[0]['date']] * 2, 'observed': log[0]['row'][k][0], 'expected': rr_['cells'][k],
+                                 'why': 'differs from the same cell in a pristine process with another string hash seed'})
+            probe('compared_with_foreign_process', n_cmp)
     # oracle: identical outcome at all instants of one override epoch for every cell without TODAY()
     for k, cc, rr in cells:
         f = spec['sheets'][0]['cells'][k]
@@ -562,6 +581,7 @@ def _dash_workbook(r):
           ('dif:D', '=DATEDIF(B1,TODAY(),"D")'), ('dif:M', '=DATEDIF(B1,TODAY(),"M")'),
           ('dif:Y', '=DATEDIF(B1,TODAY(),"Y")'), ('dif:YM', '=DATEDIF(B1,TODAY(),"YM")'),
           ('nwd_to', '=NETWORKDAYS(TODAY(),B2)'), ('nwd_from', '=NETWORKDAYS(B3,TODAY(),C1:C6)'),
+          ('nwd_to_h', '=NETWORKDAYS(TODAY(),B2,C1:C6)'),
           ('late', '=IF(TODAY()>B2,"late","ok")')]
     ref = a1(0, len(f))      # the cell that holds a plain =TODAY(); the next ones go through it
     f += [('d_today', '=TODAY()'), ('d_year', '=YEAR(%s)' % ref), ('d_eom', '=EOMONTH(%s,0)' % ref),
@@ -668,6 +688,18 @@ def _gen_calendar(seed, cfg):
             span = span_days * DAY * 10**9
             now = min(max(now, center - span, lo), center + span, hi)
             ev.append({'op': 'jump', 'ns': now})
+    # the days that are special to the WORKBOOK (own stream): a listed holiday, the deadline, the start of an interval -
+    # TODAY() equal to an endpoint or to a holiday is where inclusive/exclusive mistakes live
+    rs_ = core.rng(seed, 'clocksim', 'calendar', 'special-days')
+    special = [dec_value(v) for k_, v in cells.items() if k_ in ('B1', 'B2', 'B3') or (k_[0] == 'C' and isinstance(v, dict))]
+    special = [d_ for d_ in special if datetime.datetime(1971, 1, 3) < d_ < datetime.datetime(2099, 12, 28)]
+    if special and rs_.random() < 0.7:
+        for _ in range(rs_.randint(1, 4)):
+            d_ = rs_.choice(special)
+            off = utc_offset(tz, to_ns(d_) // 10**9)
+            local_s = to_ns(d_) // 10**9 + rs_.choice([0, 1, 12 * 3600, DAY - 1])      # that local day, early / noon / late
+            pos = rs_.randrange(5, len(ev) + 1) if len(ev) > 5 else len(ev)
+            ev[pos:pos] = [{'op': 'jump', 'ns': (local_s - off) * 10**9}, {'op': 'query'}]
     ev.append({'op': 'query'})
     return {'engine': NAME, 'mode': 'calendar', 'seed': seed, 'swarm': swarm, 'spec': spec, 'names': names, 'events': ev,
             'env': core.gen_env(seed)}
@@ -762,6 +794,8 @@ def expected_for(name, today, start, deadline, holidays, recent=None):
             return [dt(m % 12) for m in sorted(ms)]
     if name == 'nwd_to':
         return [dt(x_networkdays(T.date(), deadline.date(), []))]
+    if name == 'nwd_to_h':
+        return [dt(x_networkdays(T.date(), deadline.date(), [h.date() for h in holidays]))]
     if name == 'nwd_from':
         return [dt(x_networkdays(recent.date(), T.date(), [h.date() for h in holidays]))]
     if name == 'late':
@@ -929,9 +963,49 @@ def gen_plan(seed, cfg):
     return _gen_invariance(seed, cfg) if cfg.get('mode') == 'invariance' else _gen_calendar(seed, cfg)
 
 
+CTX = {}
+
+
+def ref_init():
+    pass
+
+
+def ref_handle(req):
+    """Reference server side: translate the matrix and evaluate every TODAY-free formula cell once, on a fresh executor
+    each, in this pristine process (other hash seed, default process settings)."""
+    import simclock
+    from excel2pycl import Parser, Executor, Cell
+    simclock.set_tz(req.get('tz', 'UTC0'))
+    simclock.set_step_ns(0)
+    simclock.set_ns(BUILD_NS)
+    simfs.reset()
+    spec = req['spec']
+    simfs.DISK.put(WB_PATH, wbgen.build_bytes(spec))
+    simclock.set_ns(req['ns'])
+    try:
+        src = Parser().disable_safety_check().set_excel_file_path(WB_PATH).get_translation()
+        ns_ = {}
+        exec(compile(src, '<reference>', 'exec'), ns_)
+        K = ns_['ExcelInPython']
+    except Exception as e:
+        return {'cells': None, 'why': type(e).__name__}
+    out = {}
+    for k, v in spec['sheets'][0]['cells'].items():
+        if isinstance(v, str) and v.startswith('=') and not _reads_today(spec, k):
+            cc, rr = wbgen.parse_a1(k)
+            simclock.set_ns(req['ns'])
+            try:
+                out[k] = outcome_of_value(Executor().set_executed_class(class_object=K).get_cell(Cell(0, cc, rr)).value)
+            except Exception as e:
+                out[k] = outcome_of_exc(e)
+    return {'cells': out}
+
+
 def run(req, ctx):
     import simclock
     simclock.preflight()
+    CTX.clear()
+    CTX.update(ctx or {})
     plan = req.get('plan') or gen_plan(req['seed'], req.get('cfg', {}))
     env_fired = core.apply_env(plan.get('env'))          # process-global stdlib settings of an embedding application
     res = _exec_invariance(plan) if plan['mode'] == 'invariance' else _exec_calendar(plan)
